@@ -17,25 +17,47 @@ def value_corpus(F, tier, name):
     return gen.normalise(gen.dedup(recs))
 
 
+def mc_parse(cfgname, name, timeout=6000):
+    """design-level model checking of the whole pipeline on a small format (MC_Parse); returns the `mc` evidence block"""
+    t0 = time.time()
+    r = core.tlc(os.path.join(core.SPEC, "mc", "MC_Parse.tla"), os.path.join(core.SPEC, "mc", cfgname + ".cfg"), name,
+                 coverage=False, cont=True, timeout=timeout)
+    bad = [p for p in r.prints if isinstance(p, dict) and p.get("verdict") != "ok"]
+    if core.tlc_fatal(r) or r.distinct == 0:
+        raise core.ToolError("MC_Parse (%s) failed: %s" % (cfgname, core.tlc_fatal(r)[:2]))
+    if bad or r.invariant_violations:
+        # the DESIGN (model) violates the property on a small format: not an implementation verdict
+        raise core.ToolError("MC_Parse (%s): the algorithm model violates the property, e.g. %s" % (cfgname, bad[:2]))
+    acts = collections.Counter()
+    for p in r.prints:
+        if isinstance(p, dict):
+            for a in set(p.get("l", [])) | set(p.get("c", [])):
+                acts[a] += 1
+    return {"module": "MC_Parse", "config": cfgname, "states": r.distinct, "transitions": r.generated,
+            "inputs": r.distinct // 5, "sampled_action_counts": dict(acts), "wall_s": round(time.time() - t0, 1)}
+
+
 def c01(tier):
     cfgs = ["std", "std+compact"] if tier == "quick" else core.ALL_CONFIGS
     inputs = value_corpus(gen.F64, tier, "C01")
+    mc = mc_parse("MC_Parse_F10_quick" if tier == "quick" else "MC_Parse_BF16", "C01-mc")
     parsecheck.parse_property_check(
         "C01", tier, inputs, cfgs, {"VALUE", "MODEL"},
         rule="f64 inputs from families G1 (plain), G2 (midpoint-derived variants for every/selected exponent field), "
              "G4 (seams), G5 (extremes), G6 (run-structured); distinct = distinct (int,frac,exp) triples; "
              "every record is adjudicated by TLC with IEEE!Judge",
         level_note="TLC evaluates the declarative rounding definition (IEEE.tla) on each (input, bits) pair observed "
-                   "from the real code; trusted: TLC, BigNat (model-checked against native ints), JSON limb codec")
+                   "from the real code; trusted: TLC, BigNat (model-checked against native ints), JSON limb codec", mc=mc)
 
 
 def c02(tier):
     cfgs = ["std", "std+compact"] if tier == "quick" else core.ALL_CONFIGS
     inputs = value_corpus(gen.F32, tier, "C02")
+    mc = mc_parse("MC_Parse_BF16_quick" if tier == "quick" else "MC_Parse_F10", "C02-mc")
     parsecheck.parse_property_check(
         "C02", tier, inputs, cfgs, {"VALUE", "MODEL"},
         rule="f32 inputs, same families as C01 with the f32 constants; single rounding is decided directly by the oracle",
-        level_note="as C01")
+        level_note="as C01", mc=mc)
 
 
 CHECKS = {"C01": c01, "C02": c02}
@@ -91,9 +113,31 @@ def c11_known(key):
     return None
 
 
+def mc_moderate(tier):
+    """the stage contract on the algorithm models (small format); the pre-repair Bellerophon must violate it"""
+    out = {}
+    suffix = "" if tier == "quick" else "_full"
+    for v in ("lemire", "bellerophon"):
+        r = core.tlc(os.path.join(core.SPEC, "mc", "MC_Moderate.tla"), os.path.join(core.SPEC, "mc", "MC_Moderate_%s%s.cfg" % (v, suffix)),
+                     "C11-mc-" + v, coverage=False, cont=True, timeout=6000)
+        if core.tlc_fatal(r) or r.distinct == 0:
+            raise core.ToolError("MC_Moderate %s failed: %s" % (v, core.tlc_fatal(r)[:2]))
+        if r.invariant_violations or [p for p in r.prints if isinstance(p, dict)]:
+            raise core.ToolError("MC_Moderate %s: the algorithm MODEL violates the stage contract: %s" % (v, r.prints[:2]))
+        out[v] = {"states": r.distinct, "transitions": r.generated}
+    r = core.tlc(os.path.join(core.SPEC, "mc", "MC_Moderate.tla"), os.path.join(core.SPEC, "mc", "MC_Moderate_original.cfg"),
+                 "C11-mc-original", coverage=False, cont=True, timeout=3000)
+    nviol = len({json.dumps(p, sort_keys=True) for p in r.prints if isinstance(p, dict)})
+    if nviol == 0:
+        raise core.ToolError("vacuity: the pre-repair Bellerophon model should violate the contract (finding F1) but MC_Moderate found nothing")
+    out["original_bellerophon_violations_found"] = nviol
+    return out
+
+
 def c11(tier):
     t0 = time.time()
     wd = core.workdir("C11")
+    mcm = mc_moderate(tier)
     inputs = []
     for F in (gen.F64, gen.F32):
         inputs += gen.g_moderate(F, gen.rng_for("C11" + F.name), tier)
@@ -152,7 +196,10 @@ def c11(tier):
                     for r in inputs[:: max(1, len(inputs) // 8)]][:10],
         "families": dict(tags), "contract_outcomes": dict(outcome), "model_actions": dict(actions),
         "model_vs_impl_drift": drift, "configs": cfgs, "tlc_cmd": res.cmd, "exhaustive": False,
+        "mc_moderate": mcm,
     }
+    cov["states"] += sum(v["states"] for v in mcm.values() if isinstance(v, dict))
+    cov["transitions"] += sum(v["transitions"] for v in mcm.values() if isinstance(v, dict))
     core.write_evidence("C11", tier, "model_checking", cov, time.time() - t0, len(violations),
                         assumptions=["release profile (value property); TLC + BigNat + IEEE oracle trusted as in C01"])
     if drift:
